@@ -546,6 +546,23 @@ fn config_path(options: &dyn CliOptions) -> Result<Option<PathBuf>, Error> {
     }
 }
 
+#[cfg(feature = "verif-hooks")]
+pub(crate) mod verif_local {
+    use super::*;
+
+    pub(crate) fn get_toml_path(dir: &Path) -> Result<Option<PathBuf>, Error> {
+        super::get_toml_path(dir)
+    }
+
+    pub(crate) fn from_toml(toml: &str, file_path: &Path) -> Result<Config, String> {
+        Config::from_toml(toml, file_path)
+    }
+
+    pub(crate) fn from_resolved_toml_path(dir: &Path) -> Result<(Config, Option<PathBuf>), Error> {
+        Config::from_resolved_toml_path(dir, None, None, None)
+    }
+}
+
 #[cfg(test)]
 mod test {
     use super::*;
